@@ -37,21 +37,21 @@ preferred only when strictly smaller; the trailing `child == n` block handles a 
 child. -/
 def siftDown (lt : κ → κ → Bool) (a : Array (Elem κ)) (i : Nat) : Array (Elem κ) :=
   if h : 2 * i + 2 < a.size then
-    let c := if lt (a[2 * i + 1]'(by omega)).key a[2 * i + 2].key then 2 * i + 1 else 2 * i + 2
-    have hc : c < a.size := by simp only [c]; split <;> omega
-    if lt a[c].key (a[i]'(by omega)).key then
-      siftDown lt (a.swap c i hc (by omega)) c
-    else a
+    if lt (a[2 * i + 1]'(by omega)).key a[2 * i + 2].key then
+      if lt (a[2 * i + 1]'(by omega)).key (a[i]'(by omega)).key then
+        siftDown lt (a.swap (2 * i + 1) i (by omega) (by omega)) (2 * i + 1)
+      else a
+    else
+      if lt a[2 * i + 2].key (a[i]'(by omega)).key then
+        siftDown lt (a.swap (2 * i + 2) i (by omega) (by omega)) (2 * i + 2)
+      else a
   else if h2 : 2 * i + 1 < a.size then
     if lt a[2 * i + 1].key (a[i]'(by omega)).key then
       a.swap (2 * i + 1) i h2 (by omega)
     else a
   else a
 termination_by a.size - i
-decreasing_by
-  simp only [Array.size_swap]
-  have : i < c := by simp only [c]; split <;> omega
-  omega
+decreasing_by all_goals (simp only [Array.size_swap]; omega)
 
 /-- `build()`: Floyd, `i = n/2 - 1` down to `0`.  `buildFrom k` sifts `k-1, …, 0`. -/
 def buildLoop (lt : κ → κ → Bool) (a : Array (Elem κ)) : Nat → Array (Elem κ)
@@ -62,16 +62,18 @@ def build (lt : κ → κ → Bool) (a : Array (Elem κ)) : Array (Elem κ) :=
   buildLoop lt a (a.size / 2)
 
 /-- `removePos(pos)` as repaired by the `fix:` commit (percolate up, then down, as `update()`
-does).  `removePosOld` is the code before the fix, kept for the `removePos_old_breaks` witness. -/
+does).  `vector_[pos] = vector_.back(); pop_back()` is written as swap-with-last then pop (the
+same array).  `removePosOld` is the code before the fix, kept for the `removePosOld_breaks`
+witness. -/
 def removePos (lt : κ → κ → Bool) (a : Array (Elem κ)) (p : Nat) : Array (Elem κ) :=
   if h : p + 1 < a.size then
-    let a' := (a.set p (a[a.size - 1]'(by omega)) (by omega)).pop
+    let a' := (a.swap p (a.size - 1) (by omega) (by omega)).pop
     siftDown lt (siftUp lt a' p) p
   else a.pop
 
 def removePosOld (lt : κ → κ → Bool) (a : Array (Elem κ)) (p : Nat) : Array (Elem κ) :=
   if h : p + 1 < a.size then
-    let a' := (a.set p (a[a.size - 1]'(by omega)) (by omega)).pop
+    let a' := (a.swap p (a.size - 1) (by omega) (by omega)).pop
     siftDown lt a' p
   else a.pop
 
